@@ -37,7 +37,27 @@ public:
     QStringList sent;
 };
 
-struct Item { QString jid, sub, name; };
+struct Item { QString jid, sub, name; bool approved = false; QString mixPid = QString(); /* null: not a MIX channel */ };
+// everything the roster view exposes about an entry (the reference keeps the same string for the item that must be cached)
+static QString sig(const Item &i)
+{
+    return QStringLiteral("%1|%2|%3|%4|%5").arg(i.name, i.sub).arg(i.approved).arg(!i.mixPid.isNull()).arg(i.mixPid);
+}
+static QString subStr(QXmppRosterIq::Item::SubscriptionType t)
+{
+    switch (t) {
+    case QXmppRosterIq::Item::None: return QStringLiteral("none");
+    case QXmppRosterIq::Item::From: return QStringLiteral("from");
+    case QXmppRosterIq::Item::To: return QStringLiteral("to");
+    case QXmppRosterIq::Item::Both: return QStringLiteral("both");
+    case QXmppRosterIq::Item::Remove: return QStringLiteral("remove");
+    default: return QString();
+    }
+}
+static QString sig(const QXmppRosterIq::Item &i)
+{
+    return QStringLiteral("%1|%2|%3|%4|%5").arg(i.name(), subStr(i.subscriptionType())).arg(i.isApproved()).arg(i.isMixChannel()).arg(i.mixParticipantId());
+}
 struct Scenario {
     QString what, own, from, type, id;
     bool rosterNs = true;
@@ -55,7 +75,9 @@ static QString iqXml(const QString &from, const QString &type, const QString &id
     for (const auto &i : items) {
         x += QStringLiteral("<item jid='%1' name='%2'").arg(i.jid, i.name);
         if (!i.sub.isEmpty()) x += QStringLiteral(" subscription='%1'").arg(i.sub);
-        x += QStringLiteral("/>");
+        if (i.approved) x += QStringLiteral(" approved='true'");
+        if (!i.mixPid.isNull()) x += QStringLiteral("><channel xmlns='urn:xmpp:mix:roster:0' participant-id='%1'/></item>").arg(i.mixPid);
+        else x += QStringLiteral("/>");
     }
     return x + QStringLiteral("</query></iq>");
 }
@@ -94,6 +116,13 @@ static QList<Scenario> battery()
     }
     Scenario n; n.what = "set IQ with another payload namespace from the server"; n.own = own; n.type = "set"; n.id = "x1"; n.pre = pre; n.items = upd; n.rosterNs = false;
     out << n;
+    // pushes that differ from the cached item only in one attribute
+    { Scenario c; c.what = "authorised push that only pre-approves a cached contact"; c.own = own; c.type = "set"; c.id = "x3"; c.pre = pre;
+      Item i { "alice@example.org", "both", "Alice" }; i.approved = true; c.items = { i }; out << c; }
+    { Scenario c; c.what = "authorised push that only turns a cached contact into a MIX channel"; c.own = own; c.type = "set"; c.id = "x4"; c.pre = pre;
+      Item i { "bob@example.org", "to", "Bob" }; i.mixPid = QStringLiteral("123456#coven@mix.example.org"); c.items = { i }; out << c; }
+    { Scenario c; c.what = "authorised push that only renames a cached contact"; c.own = own; c.type = "set"; c.id = "x5"; c.pre = pre;
+      Item i { "bob@example.org", "to", "Robert" }; c.items = { i }; out << c; }
     Scenario e; e.what = "authorised push without items"; e.own = own; e.type = "set"; e.id = "x2"; e.pre = pre;
     out << e;
     return out;
@@ -117,8 +146,8 @@ static QString run(const Scenario &sc, bool verbose)
     QObject::connect(mgr, &QXmppRosterManager::itemRemoved, mgr, [&](const QString &j) { signalLog << "removed " + j; });
 
     // reference: what the property statement prescribes
-    QMap<QString, QString> ref;   // jid -> name of the item that is the current entry
-    for (const auto &i : sc.pre) ref[i.jid] = i.name;
+    QMap<QString, QString> ref;   // jid -> signature of the item that is the current entry
+    for (const auto &i : sc.pre) ref[i.jid] = sig(i);
     const QMap<QString, QString> before = ref;
     const bool authorised = sc.from.isEmpty() || specBare(sc.from) == sc.own;
     const bool push = authorised && sc.rosterNs && sc.type == QStringLiteral("set");
@@ -129,7 +158,7 @@ static QString run(const Scenario &sc, bool verbose)
                 if (ref.remove(i.jid)) refSignals << "removed " + i.jid;
             } else {
                 refSignals << (ref.contains(i.jid) ? "changed " : "added ") + i.jid;
-                ref[i.jid] = i.name;
+                ref[i.jid] = sig(i);
             }
         }
     }
@@ -138,7 +167,7 @@ static QString run(const Scenario &sc, bool verbose)
     QCoreApplication::processEvents();
 
     QMap<QString, QString> got;
-    for (const auto &j : mgr->getRosterBareJids()) got[j] = mgr->getRosterEntry(j).name();
+    for (const auto &j : mgr->getRosterBareJids()) got[j] = sig(mgr->getRosterEntry(j));
     if (verbose) {
         printf("  input: %s\n  handled=%d packets-sent=%d entries=%d signals=%d\n", qPrintable(xml), ret, int(client.sent.size()), int(got.size()), int(signalLog.size()));
     }
